@@ -58,3 +58,6 @@ package cmd
 //@   invariant 0: !errSeen(parsePackageNamespaces)
 //@   ensures parse_error_propagates: errSeen(dsl.ParsePackageContents) ==> result1 != nil
 //@   ensures import_error_propagates: errSeen(parsePackageNamespaces) ==> result1 != nil
+
+// Output and diagnostics may not depend on the iteration order of a Go map (C12): decided per `range` over a map.
+//@ map-order C12 package
